@@ -24,14 +24,24 @@ SPEC = dict(
              'snapshot of the caller\'s values) and against the Lean model (cell hash, post-state, parsed stack, parser on damaged input). '
              'The int64 selection test of VmStackValue.serialize (`-2**63 <= value < 2**63`) and the two window tests of VmCellSlice.deserialize '
              'are re-translated from vm_stack.py on every run (Generated/VmStackTests.lean) and proved for EVERY integer to be the model\'s tests '
-             '(c17_src_tests); the hand model chooses tinyint / int257 by exactly the regenerated test (c17_src_model_int).',
+             '(c17_src_tests); the hand model chooses tinyint / int257 by exactly the regenerated test (c17_src_model_int). '
+             'The WHOLE serialize and deserialize methods of VmStack, VmStackList, VmStackValue, VmTuple, VmTupleRef, VmCellSlice, VmCont, '
+             'VmControlData, VmSaveList are regenerated from vm_stack.py on every run (Generated/VmStackSrc.lean, translator pytlb.py) and proved '
+             'for ALL inputs to equal the hand model: c17_src_serialize (same raise decision and cell, every sufficient recursion budget), '
+             'c17_src_deserialize (the regenerated parsers ARE De.* on every slice and every budget, value and slice state), c17_src_pure / '
+             'c17_src_twice (the regenerated serialisers return, next to the cell, the state of the caller\'s argument after the call - a pop() on '
+             'it shows up there - and that state is the argument itself), c17_src_roundtrip (regenerated serialize then regenerated deserialize).',
         level_note='Full proof of all three clauses over the model. The parser model carries a recursion budget (one unit per nested call; Python has '
                    'none): the round trip holds for every budget >= fuelL vs, an explicit bound linear in the size of the stack (the driver runs with 10^8). Trusted: Model/VmStack.lean mirrors vm_stack.py by hand '
                    '(Python lists stored last-first); '
                    'Spec/Tlb/VmStack.lean says what block.tlb says; the save list (HashmapE 4 VmStackValue) is an opaque dictionary root cell '
                    'in model and spec (HashMap codec is C09/C10); cell construction is a parameter (mk/view/ord) with the laws view(mk b r) = (b, r), '
-                   'ord(mk b r); the post-state model describes successful calls only; model = code is sampled differential testing.',
-        technique='Lean 4 proof (hand model) + differential correspondence with the library + source-regenerated range tests'),
+                   'ord(mk b r); the post-state model describes successful calls only. Since the methods are regenerated and proved equal, model = code no longer '
+                   'rests on sampling for vm_stack.py itself; what stays trusted: the translator pytlb.py + the declared interface in vmsrc.py (Builder / Slice '
+                   'methods mean BOp.* / SOp.* of Model/Builder.lean, value classes <-> constructors of Val / Cont / Ctl, Python lists as Lean lists last '
+                   'element first, PyTlb.lean), validated against CPython on 685 requests whenever anything changes; element states reached only through a '
+                   'continuation\'s control-data stack or a copy are outside the regenerated post-state (hand model postList + deep snapshot).',
+        technique='Lean 4 proof; serialize / deserialize methods regenerated from source and proved equal to the hand model for all inputs; differential correspondence with the library'),
     translators=[('vm_stack.py tinyint / cell-slice window tests->Generated/VmStackTests.lean', arith2.regenerator('VmStackTests')),
                  ('vm_stack.py whole serialize / deserialize methods->Generated/VmStackSrc.lean', vmsrc.regenerate)],
     lean_targets=['TonVerif.Proofs.SrcVmStack', 'TonVerif.Proofs.SrcVmStackDe'],
@@ -45,7 +55,8 @@ SPEC = dict(
                   'Spec/Tlb/VmStack.lean transcribes block.tlb (VmStack .. VmCont, VmControlData); VmSaveList content opaque',
                   'harness/gen/vmvals.py: descriptions, canonical form, independent schema encoder; gen/cells.py spec cell hash',
                   'HashMap (HashmapE 4) serialisation of save lists is taken from the library (C09/C10)',
-                  'harness/translate/pyarith.py + arith.py/arith2.py (Python comparisons -> Lean) for the c17_src_* theorems'],
+                  'harness/translate/pyarith.py + arith.py/arith2.py (Python comparisons -> Lean) for the c17_src_tests theorems',
+                  'harness/translate/pytlb.py + vmsrc.py (declared interface) + lean/TonVerif/PyTlb.lean for the whole-method c17_src_* theorems; Model/Builder.lean as the meaning of Builder / Slice'],
     assumptions=['correspondence is sampled differential testing',
                  'Python recursion limit raised to 40000 in the harness (a runtime limit, not part of the model)'],
 )
